@@ -169,6 +169,6 @@ pub fn def() -> PropDef {
         rule: "reference multigraphs over 3..10 fresh Object nodes in a standard address space (HasComponent, HasProperty, HasOrderedComponent, Organizes, GeneratesEvent; random edges plus explicit two-node cycle, shared child and three-node mixed cycle motifs), one node deleted with and without delete_target_references; oracle: the call returns (a stack overflow kills the worker and is reported from the write-ahead case); exactly the nodes of the forward closure under aggregating references are gone; no forward or inverse reference has an end in the closure; every reference between surviving nodes (and the anchor from the Objects folder) is still there in both directions; non-trivial = closure of at least two nodes or an aggregation cycle through the deleted node; distinct = distinct case",
         assumptions: &["self references are not generated: insert_reference documents a panic for them (the service-level reachability belongs to C33)", "without delete_target_references only termination is asserted"],
         abort_possible: true,
-        parts: |tier| vec![part("delete_node", tier.pick(2000, 50000), case(), run)],
+        parts: |tier| vec![part("delete_node", tier.pick(2000, 400_000), case(), run)],
     }
 }
